@@ -25,8 +25,8 @@ def alphabet(world, h):
 def plan(tier):
     W = worlds.curated()
     if tier == "quick":
-        names = ["chain", "csum-mid", "csum-deep", "csum-two-b", "always", "ifcreate", "dynamic", "default", "dovar", "fail"]
-        return [(W[n], alphabet, 3) for n in names]
+        names = ["chain", "csum-mid", "csum-deep", "csum-two-b", "csum-toggle", "fan3", "always", "ifcreate", "dynamic", "default", "dovar", "fail"]
+        return [(W[n], alphabet, 3, 2) for n in names]
     p = [(W[n], alphabet, 5 if n in ("chain", "csum-mid", "ifcreate", "dynamic", "csum-two", "csum-two-b") else 4)
          for n in W]
     G = worlds.generated()
